@@ -22,14 +22,14 @@ def _is_symnum(x):
 # ----------------------------------------------------------------------------------
 # real functions (assumed contract 5.3): uninterpreted symbols + the facts instantiated on use
 # ----------------------------------------------------------------------------------
-def real_fun(name):
-    def f(interp, x, *rest):
+def real_fun(name, orig=None):
+    def f(interp, x, *rest, **kw):
         if not isinstance(x, Sym):
             if isinstance(x, Unknown):
                 return Unknown(name)
             if contains_sym(x):
                 raise Unsupported("%s of container" % name)
-            return getattr(math, name)(x, *rest)
+            return (orig or getattr(math, name))(x, *rest, **kw)
         ex = to_z3(x, "real")
         r = ufun(name)(ex)
         p = cur()
@@ -56,7 +56,9 @@ def sym_exp(x):
 def sym_log(x):
     if not isinstance(x, Sym):
         return math.log(x)
-    return Sym(ufun("log")(to_z3(x, "real")))
+    ex = to_z3(x, "real")
+    cur().domain_guard(ex > 0, "logarg")
+    return Sym(ufun("log")(ex))
 
 
 def sym_sqrt(x):
@@ -64,7 +66,8 @@ def sym_sqrt(x):
         return math.sqrt(x)
     ex = to_z3(x, "real")
     r = ufun("sqrt")(ex)
-    cur().assume(z3.Implies(ex >= 0, z3.And(r >= 0, r * r == ex)))
+    cur().domain_guard(ex >= 0, "radicand")
+    cur().assume(z3.And(r >= 0, r * r == ex))
     return Sym(r)
 
 
@@ -91,6 +94,8 @@ class SymBackend:
             return sym_exp
         if name == "sqrt":
             return sym_sqrt
+        if name == "log":
+            return sym_log
         canonical = {"arctanh": "atanh"}.get(name, name)
 
         def f(x, _n=canonical):
@@ -663,11 +668,11 @@ def install(interp):
     r(warnings.warn, b_warn)
     r(math.isnan, b_isnan)
     for name in ("exp", "log", "sqrt", "tanh", "log10", "sin", "cos", "atanh", "log2"):
-        r(getattr(math, name), real_fun(name))
+        r(getattr(math, name), real_fun(name, getattr(math, name)))
     try:
         import numpy as np
         for name, canon in (("exp", "exp"), ("log", "log"), ("sqrt", "sqrt"), ("tanh", "tanh"), ("log10", "log10"),
                             ("sin", "sin"), ("cos", "cos"), ("arctanh", "atanh"), ("log2", "log2")):
-            r(getattr(np, name), real_fun(canon))
+            r(getattr(np, name), real_fun(canon, getattr(np, name)))
     except ImportError:
         pass
